@@ -209,6 +209,9 @@ func (w *world) onMsgCallback(k string, ci int, who string, m *service.Message, 
 	}
 	e := evOfMsg(k, ci, who, m)
 	if w.plan.Expect != nil && w.plan.Expect.Extra["retain"] != 0 && who == "eventer" && (k == KRead || k == KWrite || k == KNotSup) {
+		if len(w.stabViol) == 0 {
+			w.stabViol = append(w.stabViol, w.checkStability()...)
+		}
 		w.retain = append(w.retain, &retained{conn: ci, step: simrt.Step(), who: k, msg: m, snap: snapOf(m), write: write})
 		e.Ref = len(w.retain)
 	}
